@@ -230,6 +230,25 @@ def nullable(t):
     return True
 
 
+def strict(t):
+    k = t[0]
+    if k == "F":
+        return t[1] != ""
+    if k == "D":
+        return all(a != "" for a in t[2])
+    if k in ("S", "I", "H", "P", "M"):
+        return True
+    if k == "O":
+        return all(strict(x) for x in t[1])
+    if k == "T":
+        return bool(t[1]) and strict(t[1][0])
+    if k == "Q":
+        return t[2] > 0 and strict(t[1])
+    if k == "G":
+        return strict(t[1]) if t[2] is None else (t[2][0] * t[2][1] > 0 and strict(t[1]))
+    return False
+
+
 def cont(t, ch):
     k = t[0]
     if k == "I":
@@ -262,7 +281,7 @@ def wf(t):
         return t[1] >= 1 and t[1] ** t[2] <= 36
     if k == "O":
         l = t[1]
-        return (all(wf(x) and not nullable(x) for x in l)
+        return (all(wf(x) and strict(x) and not nullable(x) for x in l)
                 and all(disjoint(lambda c, a=l[i]: first(a, c), lambda c, b=l[j]: first(b, c))
                         for i in range(len(l)) for j in range(i + 1, len(l))))
     if k == "T":
